@@ -16,6 +16,7 @@ import (
 
 	"github.com/evolbioinfo/goalign/align"
 
+	"verif/lib/conc"
 	"verif/lib/gen"
 	"verif/lib/mon"
 )
@@ -969,6 +970,7 @@ func main() {
 	mon.Floor("hist:steps", 5000)
 	mon.Floor("cli-multi:ok", 40)
 	mon.Floor("deep-alignments", 2)
+	mon.Floor("concurrent:calls", 500)
 	mon.Main("C15", []mon.Sub{
 		{Name: "witness", Quick: len(witnesses) + 3, Thorough: len(witnesses) + 3, Run: runWitness},
 		{Name: "exh", Quick: exhCount(), Thorough: exhCount(), Run: runExh},
@@ -976,6 +978,7 @@ func main() {
 		{Name: "bigwin", Quick: 2500, Thorough: 100000, Run: runBigWin},
 		{Name: "occ", Quick: 2500, Thorough: 50000, Run: runOcc},
 		{Name: "hist", Quick: 4000, Thorough: 150000, Run: runHist},
+		{Name: "concurrent", Quick: 64, Thorough: 1200, Race: true, Run: func(c *mon.Case) { conc.Run(c, "mask") }},
 		{Name: "cli", Quick: 160, Thorough: 1500, Serial: true, Run: runCli},
 		{Name: "deep", Quick: 2, Thorough: 32, Run: runDeep},
 		{Name: "cli-multi", Quick: 90, Thorough: 900, Run: runCliMulti},
